@@ -600,7 +600,7 @@ def extendType (env : Env) (exts : List TypeDef) (t : TypeD) : R TypeD := do
     pure { t with inputFields := fs }
 
 /-- `extend_schema(schema, ast, strict=False)` as called by `build_schema` -/
-def extendSchema (env : Env) (live : Live) (doc : Doc) : R Live := do
+def extendSchema (env : Env) (live : Live) (doc : Doc) (additional : List TypeD := []) : R Live := do
   let texts := typeExtensions live doc
   let sexts := schemaExtensions doc
   if texts.isEmpty && sexts.isEmpty then pure live
@@ -610,7 +610,8 @@ def extendSchema (env : Env) (live : Live) (doc : Doc) : R Live := do
     let types ← live.types.mapM (extendType env texts)
     failIf (hasEagerCycle types) (.lib .sdl)               -- circular-reference guard of extend_type
     let roots ← sexts.foldlM (fun r se => addOps (fun n => isDefaultName n || types.any (·.name == n)) (.lib .ext) r se.ops) live.roots
-    pure { live with types := types, roots := roots }
+    -- supplied types referenced only from extension blocks are registered through the closure of the new schema
+    pure { live with types := types ++ referencedAdditional additional types live.directives roots, roots := roots }
 
 /-! ### `build_schema` (without the final `schema.validate()`) -/
 
@@ -622,7 +623,7 @@ def build (doc : Doc) (ignoreExtensions : Bool := false) (additional : List Type
   let (env, live) ← buildIgnoringExtensions doc additional
   if ignoreExtensions then pure (toSchemaD live)
   else do
-    let live' ← extendSchema env live doc
+    let live' ← extendSchema env live doc additional
     pure (toSchemaD live')
 
 end PyGql.Sdl
